@@ -230,6 +230,9 @@ def corpus_images():
                                                                          AW.SampleFile(name="LAST", pcm=b"\x06\x00")])], size_sectors=40)], None))
     a, b, c = (AW.SampleFile(name=n, pcm=struct.pack("<2H", i, i + 1)) for i, n in enumerate(["ONE", "TWO", "THREE"]))
     out.append(("volume-table-holes", [AW.Partition([AW.Volume("FIRST", [a]), AW.Volume("THIRD", [b]), AW.Volume("LAST", [c])], size_sectors=40, slots=[0, 2, 99])], None))
+    # a volume with more files than one directory sector holds (341 entries): the directory really uses its second sector
+    many = [AW.SampleFile(name="S%03d" % i, pcm=struct.pack("<2H", i, 65535 - i)) for i in range(345)]
+    out.append(("directory-two-sectors", [AW.Partition([AW.Volume("BIG", many, dir_style="run"), AW.Volume("SMALL", [AW.SampleFile(name="X", pcm=b"\x01\x00")])], size_sectors=400)], None))
     return out
 
 
